@@ -695,6 +695,10 @@ class PyExec:
         raise PyOutOfReach('operator %s' % type(op).__name__)
 
     def _cmp(self, op, a, b):
+        if isinstance(op, (ast.Is, ast.IsNot)) and (a is None or b is None):
+            other = b if a is None else a
+            r = other is None
+            return (not r) if isinstance(op, ast.IsNot) else r
         if isinstance(op, (ast.In, ast.NotIn)) and isinstance(b, SymDict):
             if isinstance(a, KeyRef):
                 r = z3.BoolVal(False) if b.kind == 'int' else z3.Select(b.arr, a.i) != SymDict.ABSENT
